@@ -363,5 +363,5 @@ def _worker(ctx, arg):
 
 
 def run(ctx):
-    per = 350 if ctx.tier == "quick" else 3000
+    per = 350 if ctx.tier == "quick" else 9000
     ctx.parallel(_worker, [(k, per) for k in range(core.NPROC)])
